@@ -115,6 +115,19 @@ pub async fn backup(
 
     // Create the new band only after finding the basis band!
     let band = Band::create(archive).await?;
+    // A gc that took its lock after the check above, and that looked for new bands before
+    // this one existed, is now free to delete blocks. Look at the archive directory again
+    // now that this band is visible there, and only after that list the blocks that may
+    // be reused.
+    if archive
+        .transport()
+        .list_dir("")
+        .await?
+        .iter()
+        .any(|entry| entry.is_file() && entry.name == gc_lock::GC_LOCK)
+    {
+        return Err(Error::GarbageCollectionLockHeld);
+    }
     let index_writer = band.index_writer(monitor.clone());
     let block_dir = archive.block_dir().await?;
     let mut writer = BackupWriter {
